@@ -13,20 +13,21 @@ Record tio : Type := mkTio {
   pend : list (Z * list N);     (* (arrival time, data), data non-empty, in arrival order *)
   now : Z;
   accept : list nat;            (* partial-write oracle: one entry per ChannelIO.write call *)
-  iolog : list V                (* ChannelIO calls of the current operation, newest first *)
+  iolog : list V;               (* ChannelIO calls of the current operation, newest first *)
+  wr : list N                   (* every byte the transport has accepted so far, in order *)
 }.
 
 Inductive rres : Type := RData (d : list N) | RTimeout | RBlocked.
 
 Definition log_read (n : nat) (timeout : option Z) (t : tio) : tio :=
   mkTio (pend t) (now t) (accept t)
-        (VL [VN 0; VNat n; VOpt VN timeout] :: iolog t).
+        (VL [VN 0; VNat n; VOpt VN timeout] :: iolog t) (wr t).
 
 Definition deliver (n : nat) (at_ : Z) (d : list N) (rest : list (Z * list N)) (t : tio) : rres * tio :=
   let got := firstn n d in
   let left := skipn n d in
   let tm := Z.max (now t) at_ in
-  (RData got, mkTio (match left with [] => rest | _ => (at_, left) :: rest end) tm (accept t) (iolog t)).
+  (RData got, mkTio (match left with [] => rest | _ => (at_, left) :: rest end) tm (accept t) (iolog t) (wr t)).
 
 (* ChannelIO.read(n, timeout) of the scripted transport *)
 Definition io_read (n : nat) (timeout : option Z) (t0 : tio) : rres * tio :=
@@ -37,14 +38,14 @@ Definition io_read (n : nat) (timeout : option Z) (t0 : tio) : rres * tio :=
     match pend t with
     | [] => match timeout with
             | None => (RBlocked, t)
-            | Some T => (RTimeout, mkTio [] (now t + Z.max T 0) (accept t) (iolog t))
+            | Some T => (RTimeout, mkTio [] (now t + Z.max T 0) (accept t) (iolog t) (wr t))
             end
     | (at_, d) :: rest =>
         if (at_ <=? now t)%Z then deliver n at_ d rest t
         else match timeout with
              | None => deliver n at_ d rest t
              | Some T => if (at_ <? now t + T)%Z then deliver n at_ d rest t
-                         else (RTimeout, mkTio (pend t) (now t + Z.max T 0) (accept t) (iolog t))
+                         else (RTimeout, mkTio (pend t) (now t + Z.max T 0) (accept t) (iolog t) (wr t))
              end
     end
   end.
@@ -55,9 +56,9 @@ Definition io_write (buf : list N) (t : tio) : nat * tio :=
            | [] => length buf
            | a :: _ => Nat.min (length buf) (Nat.max 1 a)
            end in
-  (k, mkTio (pend t) (now t) (tl (accept t)) (VL [VN 1; VB buf; VNat k] :: iolog t)).
+  (k, mkTio (pend t) (now t) (tl (accept t)) (VL [VN 1; VB buf; VNat k] :: iolog t) (wr t ++ firstn k buf)).
 
-Definition io_sleep (d : Z) (t : tio) : tio := mkTio (pend t) (now t + d) (accept t) (iolog t).
+Definition io_sleep (d : Z) (t : tio) : tio := mkTio (pend t) (now t + d) (accept t) (iolog t) (wr t).
 
 (* ------------------------------------------------------------------ channel state *)
 Record dentry : Type := mkD { d_id : nat; d_str : sstr; d_exc : Z; d_ring : list N }.
@@ -71,7 +72,8 @@ Record lg : Type := mkLg {
   streams : list Z;
   streambuf : list N;
   log_prompt : bool;
-  sout : list (Z * list N)      (* stream.write calls of the current operation, newest first *)
+  sout : list (Z * list N);     (* stream.write calls of the current operation, newest first *)
+  fwdb : list N                 (* ghost: raw bytes handed to the attached streams so far *)
 }.
 
 Record chan : Type := mkChan {
@@ -97,7 +99,7 @@ Definition with_ctx (c : chan) (x : list frame) : chan :=
   mkChan (io c) (prompt c) (deaths c) (lgs c) (blacklist c) (slow c) x (nextid c).
 
 Definition chan_init (pend0 : list (Z * list N)) (acc : list nat) : chan :=
-  mkChan (mkTio pend0 0 acc []) None [] (mkLg [] [] true []) [] None [] 0.
+  mkChan (mkTio pend0 0 acc [] []) None [] (mkLg [] [] true [] []) [] None [] 0.
 
 Definition READ_CHUNK_SIZE : nat := 4096.
 Definition SEND_SLICE : nat := 512.
@@ -113,7 +115,7 @@ Definition overlap (p buf : list N) : nat := overlap_from (Nat.min (length p) (l
 
 Definition emit (frag : list N) (l : lg) : lg :=
   mkLg (streams l) (streambuf l) (log_prompt l)
-       (rev (map (fun sid => (sid, utf8_dec frag)) (streams l)) ++ sout l).
+       (rev (map (fun sid => (sid, utf8_dec frag)) (streams l)) ++ sout l) (fwdb l ++ frag).
 
 Definition write_stream (buf : list N) (c : chan) : chan :=
   let l := lgs c in
@@ -130,7 +132,7 @@ Definition write_stream (buf : list N) (c : chan) : chan :=
                     end in
         let frag := drop_last keep sb in
         let l1 := emit frag l in
-        with_lgs c (mkLg (streams l1) (take_last keep sb) (log_prompt l1) (sout l1))
+        with_lgs c (mkLg (streams l1) (take_last keep sb) (log_prompt l1) (sout l1) (fwdb l1))
     end
   end.
 
@@ -464,7 +466,7 @@ Definition push_death (s : sstr) (exc : Z) (c : chan) : chan :=
 
 Definition push_stream (sid : Z) (show : bool) (c : chan) : chan :=
   let l := lgs c in
-  with_ctx (with_lgs c (mkLg (streams l ++ [sid]) (streambuf l) show (sout l)))
+  with_ctx (with_lgs c (mkLg (streams l ++ [sid]) (streambuf l) show (sout l) (fwdb l)))
            (FStream sid (log_prompt l) :: ctx c).
 
 Fixpoint remove_first_Z (x : Z) (l : list Z) : list Z :=
@@ -486,5 +488,5 @@ Definition pop (c : chan) : chan :=
                   | None => streambuf l
                   end
                 else streambuf l in
-      with_ctx (with_lgs c (mkLg (remove_first_Z sid (streams l)) sb prevlp (sout l))) rest
+      with_ctx (with_lgs c (mkLg (remove_first_Z sid (streams l)) sb prevlp (sout l) (fwdb l))) rest
   end.
